@@ -133,8 +133,11 @@ def tiny_locus(rng):
             intr.append((a + rng.randint(-3, 3), b + rng.randint(-3, 3)))
         if any(intr[i][1] + 1 >= intr[i + 1][0] for i in range(len(intr) - 1)):
             continue
-        ex = [(intr[0][0] - 5, intr[0][0] - 1)] + [(intr[i][1] + 1, intr[i + 1][0] - 1) for i in range(len(intr) - 1)] + \
-             [(intr[-1][1] + 1, intr[-1][1] + 6)]
+        # short terminal exons: after substitution the intron may reach the read end ("corner case" of
+        # collect_terminal_positions)
+        ex = [(intr[0][0] - rng.choice([1, 2, 5, 5]), intr[0][0] - 1)] + \
+             [(intr[i][1] + 1, intr[i + 1][0] - 1) for i in range(len(intr) - 1)] + \
+             [(intr[-1][1] + 1, intr[-1][1] + rng.choice([1, 2, 6, 6]))]
         reads.append({"id": "t%d" % rid, "exons": ex, "introns": intr, "mm": rng.random() < 0.1,
                       "strand": rng.choice("+-"), "polya": rng.random() < 0.5, "polyt": rng.random() < 0.3,
                       "group": "g1", "mapq": 60})
